@@ -98,7 +98,7 @@ impl DamagedSrc {
                     in_listfile: true,
                 })
                 .collect();
-            let o = WOptions { version: self.version as u16, shift: 3, hash_size: 16, listfile: true, userdata_prefix: 0, deleted_slots: vec![] };
+            let o = WOptions { version: self.version as u16, shift: 3, hash_size: 16, listfile: true, userdata_prefix: 0, deleted_slots: vec![], reuse_deleted: true };
             let bytes = mpqref::write_with(&wf, &o, &mpqref::WExt { sector_crc: self.crc, crc_sector_compressed: false })?;
             std::fs::write(path, bytes).map_err(|e| format!("write: {e}"))
         }
